@@ -312,7 +312,7 @@ fn main() {
         return;
     }
     let mut rep = Report::new("C04", &args);
-    rep.rule = "cases: (K/D) programs of the C04 mini language (markers, locals, in-place lists, throw, runtime-error primitives, functions to call depth 5, each/keep/fold/sort callbacks, generators consumed by for, overloaded + < >=, try/typed catch/finally to nesting 3, return/break/continue) generated from the seed with planted fault points and compared with the guide-level evaluator; (K2) programs of the mechanism model's fragment compared with Model/TryMech.lean; plus corpus and finding witnesses. distinct = distinct program S-expressions; non-trivial = at least one planted fault point and at least one try (every K2 program counts)".into();
+    rep.rule = "cases: (K/D) programs of the C04 mini language (markers, locals, in-place lists, throw, runtime-error primitives, functions to call depth 5, each/keep/fold/sort callbacks, generators consumed by for, overloaded + < >=, try/typed catch/finally to nesting 3, return/break/continue) generated from the seed with planted fault points and compared with the guide-level evaluator; (K2) programs of the mechanism model's fragment compared with Model/TryMech.lean; (E) iterator error sweep: every base x wrapper x consumer row of the checked table with a planted fault (13 fault kinds, after k = 0..2 steps, try in the same frame / in a caller / none) plus random pipelines 2-3 adaptors deep, oracle: #HIT is followed by the catch marker with the thrown value or the run fails with it; plus corpus and finding witnesses. distinct = distinct program S-expressions; non-trivial = at least one planted fault point and at least one try (every K2 program counts)".into();
     rep.extra.insert(
         "envelope".into(),
         json!({
@@ -346,6 +346,36 @@ fn main() {
     }
     if let Some(pth) = &args.replay {
         let v: serde_json::Value = serde_json::from_str(&std::fs::read_to_string(pth).expect("replay file")).unwrap();
+        if let Some(desc) = v["detail"]["sweep"].as_str() {
+            // a case of the iterator error sweep: rebuild it from its description
+            let field = |k: &str| -> String {
+                desc.split(' ').find_map(|w| w.strip_prefix(&format!("{}=", k))).unwrap_or("").to_string()
+            };
+            let row = |w: &str| -> Option<usize> { w.rsplit_once('#').and_then(|x| x.1.parse().ok()) };
+            let wr = field("wraps");
+            let c = SweepCase {
+                base: row(&field("base")),
+                wraps: wr.trim_matches(|c| c == '[' || c == ']').split(',').filter_map(row).collect(),
+                cons: row(&field("cons")).expect("cons row"),
+                fault: *FAULTS.iter().find(|f| format!("{:?}", f) == field("fault")).expect("fault kind"),
+                k: field("k").parse().unwrap_or(0),
+                mode: match field("mode").as_str() {
+                    "Same" => TryMode::Same,
+                    "Function" => TryMode::Function,
+                    _ => TryMode::None,
+                },
+                benign: field("o").parse().unwrap_or(0),
+            };
+            let src = c.source();
+            let (so, r) = run_real(&src);
+            let verdict = sweep_oracle(&c, &so, &r);
+            println!("{}\n-- impl : {}\n-- oracle: {:?}", src, canon_real(&so, &r), verdict);
+            cx.rep.case(desc, true);
+            if let Err(why) = verdict {
+                cx.rep.violation("D", "C04:error-propagation-through-iterators", json!({"sweep": desc, "source": src, "impl": canon_real(&so, &r), "why": why}));
+            }
+            std::process::exit(cx.rep.finish());
+        }
         let sx = v["detail"]["program"].as_str().expect("detail.program");
         let p = Prog::parse(sx).expect("program sexp");
         if v["detail"]["mech"].as_bool() == Some(true) {
@@ -398,6 +428,9 @@ fn main() {
             break;
         }
     }
+    // ---- 1b. (E) error propagation through every iterator adaptor / consumer position
+    run_sweep(&mut cx, args.seed, args.thorough());
+
     // ---- 2. (K2) mechanism model vs the real runtime
     let n_mech = if args.thorough() { 40000 } else { 2500 };
     let mut rng2 = Rng::new(args.seed ^ 0x5eed_c04);
@@ -655,6 +688,679 @@ impl Ctx {
     }
 }
 
+// ------------------------------------------------------------------------------------ (E) iterator error sweep
+//
+// Clause: "a thrown value or runtime error unwinds to the innermost enclosing try … from any depth
+// of function calls, iterator callbacks, generators … an uncaught error ends the run with an error
+// result". Every position a lazily evaluated script callback or generator can occupy in the
+// adaptors/consumers of core_lib/iterator is enumerated from the table below (checked against the
+// source on every run); a fault point (throw of each value kind / each runtime error kind) is
+// planted there, after k successful steps, under 0–2 further adaptors, consumed in every way.
+// Oracle (no model needed): the fault point prints `#HIT` immediately before it raises. If `#HIT`
+// was printed, the very next marker must be the catch marker carrying the thrown value intact
+// (type and display), `#DONE` (normal completion of the try body) must not appear — or, with no
+// try, the run must end with an error whose message is the thrown value. Never a normal completion.
+
+#[derive(Clone, Copy, PartialEq, Debug)]
+enum FRole {
+    Id,    // |x| … x
+    True,  // |x| … true
+    False, // |x| … false
+    Key,   // |x| … x
+    Fold,  // |a, x| … a
+    Gen,   // || … 1
+    Sep,   // || … 0
+}
+
+#[derive(Clone, Copy, PartialEq, Debug)]
+enum TK {
+    /// adaptor applied to an erroring input `{X}` (`{O}` = a benign second input)
+    Wrap,
+    /// consumer of an erroring input `{X}` (may be several statements)
+    Cons,
+    /// consumer whose own callback is the fault function `{F}` (over the benign `{O}`)
+    CbCons(FRole),
+    /// adaptor/source whose own callback is the fault function: the innermost erroring iterator
+    Base(FRole),
+    /// a benign source used for `{O}`
+    Src,
+}
+
+struct Tpl {
+    f: &'static str,
+    kind: TK,
+    text: &'static str,
+}
+
+const fn t(f: &'static str, kind: TK, text: &'static str) -> Tpl {
+    Tpl { f, kind, text }
+}
+
+/// One row per lazily-evaluated position of every function of `core_lib/iterator.rs`.
+/// Names in parentheses are consumers outside the module (language constructs, list/map).
+const TPLS: &[Tpl] = &[
+    t("advance", TK::Cons, "it_ = {X}\nz_ = it_.advance(3)\nit_.consume()"),
+    t("all", TK::Cons, "z_ = {X}.all(|x| true)"),
+    t("all", TK::CbCons(FRole::True), "z_ = {O}.all({F})"),
+    t("any", TK::Cons, "z_ = {X}.any(|x| false)"),
+    t("any", TK::CbCons(FRole::False), "z_ = {O}.any({F})"),
+    t("chain", TK::Wrap, "{X}.chain({O})"),
+    t("chain", TK::Wrap, "{O}.chain({X})"),
+    t("chunks", TK::Wrap, "{X}.chunks(2)"),
+    t("consume", TK::Cons, "{X}.consume()"),
+    t("consume", TK::Cons, "{X}.consume(|x| x)"),
+    t("consume", TK::CbCons(FRole::Id), "{O}.consume({F})"),
+    t("count", TK::Cons, "z_ = {X}.count()"),
+    t("cycle", TK::Wrap, "{X}.cycle().take(15)"),
+    t("each", TK::Wrap, "{X}.each(|x| x)"),
+    t("each", TK::Base(FRole::Id), "{O}.each({F})"),
+    t("enumerate", TK::Wrap, "{X}.enumerate()"),
+    t("find", TK::Cons, "z_ = {X}.find(|x| false)"),
+    t("find", TK::CbCons(FRole::False), "z_ = {O}.find({F})"),
+    t("flatten", TK::Wrap, "{X}.flatten()"),
+    t("flatten", TK::Wrap, "iterator.once({X}).flatten()"),
+    t("flatten", TK::Wrap, "((7, 8), {X}, (9,)).flatten()"),
+    t("fold", TK::Cons, "z_ = {X}.fold(0, |a, x| a)"),
+    t("fold", TK::CbCons(FRole::Fold), "z_ = {O}.fold(0, {F})"),
+    t("generate", TK::Base(FRole::Gen), "iterator.generate({F}).take(6)"),
+    t("generate", TK::Base(FRole::Gen), "iterator.generate({F}, 6)"),
+    t("intersperse", TK::Wrap, "{X}.intersperse(0)"),
+    t("intersperse", TK::Wrap, "{X}.intersperse(|| 0)"),
+    t("intersperse", TK::Base(FRole::Sep), "{O}.intersperse({F})"),
+    t("iter", TK::Wrap, "{X}.iter()"),
+    t("keep", TK::Wrap, "{X}.keep(|x| true)"),
+    t("keep", TK::Base(FRole::True), "{O}.keep({F})"),
+    t("last", TK::Cons, "z_ = {X}.last()"),
+    t("max", TK::Cons, "z_ = {X}.max()"),
+    t("max", TK::Cons, "z_ = {X}.max(|x| 1)"),
+    t("max", TK::CbCons(FRole::Key), "z_ = {O}.max({F})"),
+    t("min", TK::Cons, "z_ = {X}.min()"),
+    t("min", TK::Cons, "z_ = {X}.min(|x| 1)"),
+    t("min", TK::CbCons(FRole::Key), "z_ = {O}.min({F})"),
+    t("min_max", TK::Cons, "z_ = {X}.min_max()"),
+    t("min_max", TK::Cons, "z_ = {X}.min_max(|x| 1)"),
+    t("min_max", TK::CbCons(FRole::Key), "z_ = {O}.min_max({F})"),
+    t("next", TK::Cons, "it_ = {X}\nz_ = it_.next()\nz_ = it_.next()\nz_ = it_.next()\nz_ = it_.next()\nit_.consume()"),
+    t("next_back", TK::Cons, "it_ = {X}\nz_ = it_.next_back()\nz_ = it_.next_back()\nz_ = it_.next_back()\nz_ = it_.next_back()\nz_ = it_.next_back()\nz_ = it_.next_back()\nit_.consume()"),
+    t("once", TK::Src, "iterator.once(5)"),
+    t("peekable", TK::Wrap, "{X}.peekable()"),
+    t("peekable", TK::Cons, "p_ = {X}.peekable()\nz_ = p_.peek()\nz_ = p_.next()\nz_ = p_.peek()\nz_ = p_.next()\nz_ = p_.peek()\nz_ = p_.next()\nz_ = p_.peek()\nfor q_ in p_\n  z_ = q_"),
+    t("peekable", TK::Cons, "p_ = {X}.peekable()\nz_ = p_.peek_back()\nz_ = p_.next_back()\nz_ = p_.peek_back()\nz_ = p_.next_back()\nz_ = p_.peek_back()\nz_ = p_.next_back()\nz_ = p_.peek_back()\nz_ = p_.next_back()\nz_ = p_.peek_back()\nz_ = p_.next_back()\nz_ = p_.peek_back()\nz_ = p_.next_back()\nfor q_ in p_\n  z_ = q_"),
+    t("position", TK::Cons, "z_ = {X}.position(|x| false)"),
+    t("position", TK::CbCons(FRole::False), "z_ = {O}.position({F})"),
+    t("product", TK::Cons, "z_ = {X}.product()"),
+    t("repeat", TK::Src, "iterator.repeat(5, 6)"),
+    t("reversed", TK::Wrap, "{X}.reversed()"),
+    t("skip", TK::Wrap, "{X}.skip(0)"),
+    t("skip", TK::Wrap, "{X}.skip(1)"),
+    t("step", TK::Wrap, "{X}.step(1)"),
+    t("step", TK::Wrap, "{X}.step(2)"),
+    t("sum", TK::Cons, "z_ = {X}.sum()"),
+    t("take", TK::Wrap, "{X}.take(100)"),
+    t("take", TK::Wrap, "{X}.take(|x| true)"),
+    t("take", TK::Base(FRole::True), "{O}.take({F})"),
+    t("to_list", TK::Cons, "z_ = {X}.to_list()"),
+    t("to_map", TK::Cons, "z_ = {X}.to_map()"),
+    t("to_string", TK::Cons, "z_ = {X}.to_string()"),
+    t("to_tuple", TK::Cons, "z_ = {X}.to_tuple()"),
+    t("windows", TK::Wrap, "{X}.windows(2)"),
+    t("zip", TK::Wrap, "{X}.zip({O})"),
+    t("zip", TK::Wrap, "{O}.zip({X})"),
+    // consumers that are language constructs / other modules
+    t("(for)", TK::Cons, "for a_ in {X}\n  z_ = a_"),
+    t("(for-unpack)", TK::Cons, "for a_, b_ in {X}\n  z_ = a_"),
+    t("(unpack)", TK::Cons, "it_ = {X}\na_, b_, c_, d_ = it_\nit_.consume()"),
+    t("(list.extend)", TK::Cons, "z_ = [0].extend({X})"),
+    t("(for-in-function)", TK::Cons, "w_ = ||\n  for a_ in {X}\n    z_ = a_\n  0\nz_ = w_()"),
+    t("(generator-relay)", TK::Wrap, "(|src| for y_ in src\n  yield y_\n)({X})"),
+];
+
+/// functions of the iterator module with no lazily evaluated input or callback position
+const ITER_FN_NOT_APPLICABLE: &[(&str, &str)] = &[];
+
+/// `pub struct` of iterator/{adaptors,generators,peekable}.rs → the module function whose
+/// templates exercise it (or "n/a: reason")
+const STRUCT_COVER: &[(&str, &str)] = &[
+    ("Chain", "chain"),
+    ("Chunks", "chunks"),
+    ("Cycle", "cycle"),
+    ("Each", "each"),
+    ("Enumerate", "enumerate"),
+    ("Flatten", "flatten"),
+    ("Intersperse", "intersperse"),
+    ("IntersperseWith", "intersperse"),
+    ("Keep", "keep"),
+    ("PairFirst", "n/a: only wraps a map's own entry iterator (map.keys), which cannot raise"),
+    ("PairSecond", "n/a: only wraps a map's own entry iterator (map.values), which cannot raise"),
+    ("Reversed", "reversed"),
+    ("Skip", "skip"),
+    ("Step", "step"),
+    ("Take", "take"),
+    ("TakeWhile", "take"),
+    ("Windows", "windows"),
+    ("Zip", "zip"),
+    ("Once", "once"),
+    ("Repeat", "n/a: infinite source of a constant, no callback, no input"),
+    ("RepeatN", "repeat"),
+    ("Generate", "generate"),
+    ("GenerateN", "generate"),
+    ("Peekable", "peekable"),
+];
+
+fn repo_root() -> String {
+    std::env::var("KOTO_REPO").unwrap_or_else(|_| "/repo".to_string())
+}
+
+fn scan_names(path: &str, prefix: &str, stop: char) -> Option<Vec<String>> {
+    let txt = std::fs::read_to_string(path).ok()?;
+    let mut out = vec![];
+    for line in txt.lines() {
+        let l = line.trim_start();
+        if let Some(rest) = l.strip_prefix(prefix) {
+            let name: String = rest.chars().take_while(|c| *c != stop && (c.is_alphanumeric() || *c == '_')).collect();
+            if !name.is_empty() {
+                out.push(name);
+            }
+        }
+    }
+    Some(out)
+}
+
+/// The table must list exactly the functions / adaptor structs the source defines.
+fn check_iterator_table(cx: &mut Ctx) {
+    let root = repo_root();
+    let base = format!("{}/crates/runtime/src/core_lib", root);
+    let fns = scan_names(&format!("{}/iterator.rs", base), "result.add_fn(\"", '"');
+    let mut structs: Vec<String> = vec![];
+    let mut ok = fns.is_some();
+    for f in ["adaptors.rs", "generators.rs", "peekable.rs"] {
+        match scan_names(&format!("{}/iterator/{}", base, f), "pub struct ", ' ') {
+            Some(v) => structs.extend(v),
+            None => ok = false,
+        }
+    }
+    let fns = fns.unwrap_or_default();
+    let mut problems = vec![];
+    if !ok || fns.len() < 20 || structs.len() < 10 {
+        problems.push(format!("iterator sources not found or not in the expected shape under {}", base));
+    }
+    let table: std::collections::BTreeSet<&str> = TPLS
+        .iter()
+        .map(|t| t.f)
+        .filter(|f| !f.starts_with('('))
+        .chain(ITER_FN_NOT_APPLICABLE.iter().map(|x| x.0))
+        .collect();
+    for f in &fns {
+        if !table.contains(f.as_str()) {
+            problems.push(format!("iterator.{} is defined in iterator.rs but has no row in the sweep table", f));
+        }
+    }
+    for f in &table {
+        if !fns.iter().any(|x| x == f) {
+            problems.push(format!("the sweep table lists iterator.{} which iterator.rs no longer defines", f));
+        }
+    }
+    for s in &structs {
+        match STRUCT_COVER.iter().find(|x| x.0 == s) {
+            None => problems.push(format!("adaptor struct {} has no entry in the sweep's struct table", s)),
+            Some((_, f)) if !f.starts_with("n/a") && !table.contains(f) => {
+                problems.push(format!("adaptor struct {} is mapped to unknown function {}", s, f))
+            }
+            _ => {}
+        }
+    }
+    for (s, _) in STRUCT_COVER {
+        if !structs.iter().any(|x| x == s) {
+            problems.push(format!("the struct table lists {} which the source no longer defines", s));
+        }
+    }
+    cx.rep.extra.insert("iterator_table".into(), json!({"functions_in_source": fns.len(), "structs_in_source": structs.len(), "table_rows": TPLS.len()}));
+    if !problems.is_empty() {
+        cx.fails += 1;
+        cx.rep.violation(
+            "K",
+            "K:C04:iterator-sweep-table",
+            json!({"problems": problems,
+                   "note": "the table of iterator adaptors/consumers that the error-propagation sweep enumerates no longer matches crates/runtime/src/core_lib/iterator*: a new or renamed adaptor has no fault-injection coverage"}),
+        );
+    }
+}
+
+#[derive(Clone, Copy, Debug, PartialEq)]
+enum FaultV {
+    Str,
+    Num,
+    Null,
+    Bool,
+    Obj,
+    List,
+    Tuple,
+    Map,
+    RtIndex,
+    RtType,
+    RtAssert,
+    RtArgs,
+    RtAccess,
+}
+
+const FAULTS: &[FaultV] = &[
+    FaultV::Str,
+    FaultV::Obj,
+    FaultV::Num,
+    FaultV::RtIndex,
+    FaultV::Null,
+    FaultV::RtType,
+    FaultV::List,
+    FaultV::RtAssert,
+    FaultV::Bool,
+    FaultV::RtArgs,
+    FaultV::Tuple,
+    FaultV::RtAccess,
+    FaultV::Map,
+];
+
+impl FaultV {
+    fn stmt(&self) -> &'static str {
+        match self {
+            FaultV::Str => "throw 'boom'",
+            FaultV::Num => "throw 42",
+            FaultV::Null => "throw null",
+            FaultV::Bool => "throw true",
+            FaultV::Obj => "throw mkE_()",
+            FaultV::List => "throw [1, 2]",
+            FaultV::Tuple => "throw (1, 2)",
+            FaultV::Map => "throw {a: 1}",
+            FaultV::RtIndex => "zz_ = (1, 2)[5]",
+            FaultV::RtType => "zz_ = 1 + 'a'",
+            FaultV::RtAssert => "assert false",
+            FaultV::RtArgs => "k1_()",
+            FaultV::RtAccess => "zz_ = nul_.foo",
+        }
+    }
+    /// `{type e} {e}` as the catch block must see it
+    fn expected(&self) -> &'static str {
+        match self {
+            FaultV::Str => "String boom",
+            FaultV::Num => "Number 42",
+            FaultV::Null => "Null null",
+            FaultV::Bool => "Bool true",
+            FaultV::Obj => "K0 k0",
+            FaultV::List => "List [1, 2]",
+            FaultV::Tuple => "Tuple (1, 2)",
+            FaultV::Map => "Map {a: 1}",
+            FaultV::RtIndex => "String index out of bounds - index: 5, size: 2",
+            FaultV::RtType => "String unable to perform operation '+' with 'Number' and 'String'",
+            FaultV::RtAssert => "String assertion failed",
+            FaultV::RtArgs => "String insufficient arguments (0, expected 1)",
+            FaultV::RtAccess => "String expected a value that supports '.' access, found Null",
+        }
+    }
+}
+
+#[derive(Clone, Copy, Debug, PartialEq)]
+enum TryMode {
+    Same,     // try in the frame that consumes
+    Function, // the consumption happens in a function called from the try block
+    None,     // no try: the run must end with the error
+}
+
+const BENIGN: &[&str] = &["(1, 2, 3, 4, 5, 6)", "[1, 2, 3, 4, 5, 6]", "(1..=6)", "iterator.repeat(5, 6)"];
+
+struct SweepCase {
+    /// innermost erroring iterator: index into TPLS (a Base row), or None = the fault generator
+    base: Option<usize>,
+    wraps: Vec<usize>,
+    /// consumer row (Cons, or CbCons: then base/wraps are unused)
+    cons: usize,
+    fault: FaultV,
+    k: usize,
+    mode: TryMode,
+    benign: usize,
+}
+
+impl SweepCase {
+    fn describe(&self) -> String {
+        let b = match (TPLS[self.cons].kind, self.base) {
+            (TK::CbCons(_), _) => "-".to_string(),
+            (_, Some(i)) => format!("{}#{}", TPLS[i].f, i),
+            (_, None) => "generator".to_string(),
+        };
+        let w: Vec<String> = self.wraps.iter().map(|i| format!("{}#{}", TPLS[*i].f, i)).collect();
+        format!(
+            "base={} wraps=[{}] cons={}#{} fault={:?} k={} mode={:?} o={}",
+            b,
+            w.join(","),
+            TPLS[self.cons].f,
+            self.cons,
+            self.fault,
+            self.k,
+            self.mode,
+            self.benign
+        )
+    }
+
+    fn fault_fn(&self, role: FRole) -> String {
+        let (params, ret) = match role {
+            FRole::Id | FRole::Key => ("|x|", "x"),
+            FRole::True => ("|x|", "true"),
+            FRole::False => ("|x|", "false"),
+            FRole::Fold => ("|a, x|", "a"),
+            FRole::Gen => ("||", "1"),
+            FRole::Sep => ("||", "0"),
+        };
+        format!(
+            "ft_ = {}\n  hits_.push 0\n  if (size hits_) == {}\n    print '#HIT'\n    {}\n  {}\n",
+            params,
+            self.k + 1,
+            self.fault.stmt(),
+            ret
+        )
+    }
+
+    fn fault_gen(&self) -> String {
+        let mut s = String::from("fg_ = ||\n");
+        for i in 0..self.k {
+            s.push_str(&format!("  yield {}\n", i + 1));
+        }
+        s.push_str(&format!("  print '#HIT'\n  {}\n  yield 99\n", self.fault.stmt()));
+        s
+    }
+
+    fn source(&self) -> String {
+        let o = BENIGN[self.benign % BENIGN.len()];
+        let mut defs = String::new();
+        let cons = &TPLS[self.cons];
+        let body: String = match cons.kind {
+            TK::CbCons(role) => {
+                defs.push_str(&self.fault_fn(role));
+                cons.text.replace("{O}", o).replace("{F}", "ft_")
+            }
+            _ => {
+                let mut x = match self.base {
+                    Some(i) => {
+                        if let TK::Base(role) = TPLS[i].kind {
+                            defs.push_str(&self.fault_fn(role));
+                        }
+                        TPLS[i].text.replace("{O}", o).replace("{F}", "ft_")
+                    }
+                    None => {
+                        defs.push_str(&self.fault_gen());
+                        "fg_()".to_string()
+                    }
+                };
+                for (n, w) in self.wraps.iter().enumerate() {
+                    let o2 = BENIGN[(self.benign + n + 1) % BENIGN.len()];
+                    x = TPLS[*w].text.replace("{X}", &x).replace("{O}", o2);
+                }
+                cons.text.replace("{X}", &x)
+            }
+        };
+        let mut s = String::from("nul_ = null\nk1_ = |a| a\nmkE_ = ||\n  @type: 'K0'\n  @display: || 'k0'\nhits_ = []\n");
+        s.push_str(&defs);
+        s.push_str("print '#S'\n");
+        let indent = |txt: &str, n: usize| -> String {
+            txt.lines().map(|l| format!("{}{}\n", "  ".repeat(n), l)).collect()
+        };
+        match self.mode {
+            TryMode::Same => {
+                s.push_str("try\n");
+                s.push_str(&indent(&body, 1));
+                s.push_str("  print '#DONE'\ncatch e_\n  print '#C {type e_} {e_}'\nprint '#END'\n");
+            }
+            TryMode::Function => {
+                s.push_str("run_ = ||\n");
+                s.push_str(&indent(&body, 1));
+                s.push_str("  print '#DONE'\n  0\ntry\n  z2_ = run_()\ncatch e_\n  print '#C {type e_} {e_}'\nprint '#END'\n");
+            }
+            TryMode::None => {
+                s.push_str(&body);
+                s.push_str("\nprint '#DONE'\n");
+            }
+        }
+        s
+    }
+}
+
+/// `intersperse` looks one element ahead before it hands out a separator: an error raised by that
+/// element is delivered one pull later, so an error of the consumer's own (e.g. `max` comparing a
+/// number with a tuple) can legitimately arrive first.
+fn has_lookahead(c: &SweepCase) -> bool {
+    c.wraps.iter().any(|w| TPLS[*w].f == "intersperse")
+}
+
+/// … and when an adaptor *above* the intersperse stops pulling early (zip with a shorter partner,
+/// `cycle().take(n)`), the element that was only looked at is never demanded at all.
+fn lookahead_may_be_dropped(c: &SweepCase) -> bool {
+    match c.wraps.iter().position(|w| TPLS[*w].f == "intersperse") {
+        Some(i) => c.wraps[i + 1..].iter().any(|w| matches!(TPLS[*w].f, "zip" | "cycle")),
+        None => false,
+    }
+}
+
+const SKIP1: &str = "{X}.skip(1)";
+const STEP2: &str = "{X}.step(2)";
+
+/// Shape of the findings F-C04-7 / F-C04-8 (generation filter): the element whose production
+/// raises is one that `skip(n >= 1)` / `step(n >= 2)` discards. Directly above the innermost
+/// iterator this is decidable (k-th element / separator positions); deeper in a pipeline it is not,
+/// so these two rows are then not used at all.
+fn discard_shape(c: &SweepCase) -> bool {
+    let pos = |txt: &str| c.wraps.iter().position(|w| TPLS[*w].text == txt);
+    for (txt, is_skip) in [(SKIP1, true), (STEP2, false)] {
+        if let Some(p) = pos(txt) {
+            if p > 0 || c.wraps.iter().filter(|w| TPLS[**w].text == txt).count() > 1 {
+                return true;
+            }
+            // directly above the base: index of the raising element in the base's output
+            let sep_base = matches!(c.base, Some(b) if matches!(TPLS[b].kind, TK::Base(FRole::Sep)));
+            let idx = if sep_base { 2 * c.k + 1 } else { c.k };
+            let discarded = if is_skip { idx == 0 } else { idx % 2 == 1 };
+            if discarded {
+                return true;
+            }
+            // a second discarding adaptor elsewhere in the pipeline
+            if c.wraps.iter().enumerate().any(|(i, w)| i != p && (TPLS[*w].text == SKIP1 || TPLS[*w].text == STEP2)) {
+                return true;
+            }
+        }
+    }
+    false
+}
+
+/// Ok(true) = the fault point fired and the error arrived correctly; Ok(false) = it never fired
+fn sweep_oracle(c: &SweepCase, stdout: &str, r: &Result<Result<String, String>, String>) -> Result<bool, String> {
+    if let Err(p) = r {
+        return Err(format!("panic: {}", p));
+    }
+    let clean = strip_traces(stdout);
+    let markers: Vec<&str> = clean.split('\n').filter(|l| l.starts_with('#')).collect();
+    let hits = markers.iter().filter(|m| **m == "#HIT").count();
+    if hits == 0 {
+        return Ok(false);
+    }
+    if hits > 1 {
+        return Err(format!("the fault point was executed {} times (execution went on after it raised)", hits));
+    }
+    let pos = markers.iter().position(|m| *m == "#HIT").unwrap();
+    let after: Vec<&str> = markers[pos + 1..].to_vec();
+    let exp_c = format!("#C {}", c.fault.expected());
+    let la = has_lookahead(c);
+    if lookahead_may_be_dropped(c) && matches!(r, Ok(Ok(_))) && !after.iter().any(|m| m.starts_with("#C")) {
+        return Ok(false); // looked at, never demanded: counts as "fault point not reached"
+    }
+    match c.mode {
+        TryMode::Same | TryMode::Function => {
+            if la && after.len() == 2 && after[0].starts_with("#C String ") && after[1] == "#END" && matches!(r, Ok(Ok(_))) {
+                return Ok(true); // another error arrived first (see has_lookahead)
+            }
+            if after.is_empty() || after[0] != exp_c {
+                return Err(format!(
+                    "after the fault point raised, expected the catch marker {:?} next, got {:?}",
+                    exp_c, after
+                ));
+            }
+            if after.len() != 2 || after[1] != "#END" {
+                return Err(format!("unexpected markers after the catch block: {:?}", after));
+            }
+            match r {
+                Ok(Ok(_)) => Ok(true),
+                other => Err(format!("the error was caught but the run did not complete normally: {:?}", other)),
+            }
+        }
+        TryMode::None => {
+            if !after.is_empty() {
+                return Err(format!("execution continued after an uncaught error: {:?}", after));
+            }
+            let want = c.fault.expected().split_once(' ').map(|x| x.1).unwrap_or("");
+            match r {
+                Ok(Err(e)) => {
+                    let first = strip_traces(e);
+                    let first = first.split('\n').next().unwrap_or("");
+                    if first == want || la {
+                        Ok(true)
+                    } else {
+                        Err(format!("uncaught error message {:?}, expected the thrown value {:?}", first, want))
+                    }
+                }
+                other => Err(format!("the fault point raised with no enclosing try but the run ended with {:?}", other)),
+            }
+        }
+    }
+}
+
+fn run_sweep(cx: &mut Ctx, seed: u64, thorough: bool) {
+    check_iterator_table(cx);
+    let idx_of = |pred: &dyn Fn(&Tpl) -> bool| -> Vec<usize> { (0..TPLS.len()).filter(|i| pred(&TPLS[*i])).collect() };
+    let bases: Vec<Option<usize>> =
+        idx_of(&|t| matches!(t.kind, TK::Base(_))).into_iter().map(Some).chain(std::iter::once(None)).collect();
+    let wraps = idx_of(&|t| t.kind == TK::Wrap);
+    let conss = idx_of(&|t| t.kind == TK::Cons);
+    let cbs = idx_of(&|t| matches!(t.kind, TK::CbCons(_)));
+    let modes = [TryMode::Same, TryMode::None, TryMode::Function];
+    let mut rng = Rng::new(seed ^ 0x17e8_a705);
+    let mut n = 0usize;
+    let mut fired_by_fn: std::collections::BTreeMap<&'static str, u64> = Default::default();
+    let mut sweep_fail = 0u64;
+    let open78 = std::env::var("C04_NO_DISCARD_FILTER").is_err() && cx.rep.known_open().iter().any(|e| matches!(e.get("id").and_then(|x| x.as_str()), Some("F-C04-7") | Some("F-C04-8")));
+    let mut run_case = |cx: &mut Ctx, c: SweepCase, n: &mut usize| {
+        if open78 && discard_shape(&c) {
+            cx.rep.bump("generation_filter_rejected:F-C04-7/8:element discarded by skip/step raises");
+            return;
+        }
+        *n += 1;
+        let src = c.source();
+        let (so, r) = run_real(&src);
+        let verdict = sweep_oracle(&c, &so, &r);
+        let key = format!("sweep {}", c.describe());
+        cx.rep.case(&key, matches!(verdict, Ok(true)));
+        match &verdict {
+            Ok(true) => {
+                cx.rep.bump("sweep=fired");
+                cx.rep.bump(&format!("sweep_fault={:?}", c.fault));
+                cx.rep.bump(&format!("sweep_mode={:?}", c.mode));
+                cx.rep.bump(&format!("sweep_depth={}", c.wraps.len()));
+                let mut names: Vec<&'static str> = c.wraps.iter().map(|i| TPLS[*i].f).collect();
+                names.push(TPLS[c.cons].f);
+                if let Some(b) = c.base {
+                    names.push(TPLS[b].f);
+                } else if !matches!(TPLS[c.cons].kind, TK::CbCons(_)) {
+                    names.push("(generator)");
+                }
+                names.sort();
+                names.dedup();
+                for f in names {
+                    *fired_by_fn.entry(f).or_insert(0) += 1;
+                }
+                if cx.rep.samples.len() < 10 && *n % 997 == 5 {
+                    cx.rep.sample(json!({"kind": "iterator-error-sweep", "request": key, "source": src,
+                        "impl": canon_real(&so, &r), "model": format!("oracle: #HIT then #C {}", c.fault.expected())}));
+                }
+            }
+            Ok(false) => cx.rep.bump("sweep=fault_point_not_reached"),
+            Err(why) => {
+                sweep_fail += 1;
+                cx.fails += 1;
+                if std::env::var("C04_SWEEP_DUMP").is_ok() {
+                    eprintln!("SWEEPFAIL {} :: {}", c.describe(), why);
+                }
+                if sweep_fail <= 6 {
+                    cx.rep.violation(
+                        "D",
+                        "C04:error-propagation-through-iterators",
+                        json!({"sweep": c.describe(), "source": src, "impl": canon_real(&so, &r), "why": why,
+                               "expected": format!("#HIT is followed by the catch marker `#C {}` (or, with no try, the run ends with that error); never a normal completion", c.fault.expected()),
+                               "note": "an error raised by a lazily evaluated callback/generator inside an iterator pipeline did not reach the innermost enclosing try with the thrown value intact"}),
+                    );
+                }
+            }
+        }
+    };
+    let mut rot = (seed as usize) % 7;
+    let pick = |rot: &mut usize| -> (FaultV, usize, TryMode) {
+        *rot += 1;
+        (FAULTS[*rot % FAULTS.len()], (*rot / 3) % 3, modes[(*rot / 2) % 3])
+    };
+    // 1. consumer callbacks
+    for &c in &cbs {
+        let reps = if thorough { FAULTS.len() * 3 } else { 6 };
+        for _ in 0..reps {
+            let (fault, k, mode) = pick(&mut rot);
+            run_case(cx, SweepCase { base: None, wraps: vec![], cons: c, fault, k, mode, benign: rot }, &mut n);
+        }
+    }
+    // 2. every base × (no wrapper | every wrapper) × every consumer
+    let reps = if thorough { 4 } else { 1 };
+    for &b in &bases {
+        for w in std::iter::once(None).chain(wraps.iter().map(|w| Some(*w))) {
+            for &c in &conss {
+                for _ in 0..reps {
+                    let (fault, k, mode) = pick(&mut rot);
+                    run_case(
+                        cx,
+                        SweepCase { base: b, wraps: w.into_iter().collect(), cons: c, fault, k, mode, benign: rot },
+                        &mut n,
+                    );
+                }
+            }
+        }
+    }
+    // 3. random pipelines, 2–3 adaptors deep
+    let n_rand = if thorough { 60000 } else { 3000 };
+    for _ in 0..n_rand {
+        let depth = 2 + rng.below(2);
+        let c = SweepCase {
+            base: *rng.pick(&bases),
+            wraps: (0..depth).map(|_| *rng.pick(&wraps)).collect(),
+            cons: *rng.pick(&conss),
+            fault: *rng.pick(FAULTS),
+            k: rng.below(3),
+            mode: *rng.pick(&modes),
+            benign: rng.below(4),
+        };
+        run_case(cx, c, &mut n);
+    }
+    // every table row must have been exercised with the fault actually firing
+    let mut silent = vec![];
+    for t in TPLS.iter().filter(|t| t.kind != TK::Src) {
+        if fired_by_fn.get(t.f).copied().unwrap_or(0) == 0 && !silent.contains(&t.f) {
+            silent.push(t.f);
+        }
+    }
+    cx.rep.extra.insert(
+        "iterator_sweep".into(),
+        json!({"cases": n, "fired_per_function": fired_by_fn, "functions_never_fired": silent, "failures": sweep_fail}),
+    );
+    if !silent.is_empty() {
+        cx.fails += 1;
+        cx.rep.violation(
+            "K",
+            "K:C04:iterator-sweep-coverage",
+            json!({"functions_never_fired": silent,
+                   "note": "no case of the sweep reached its fault point through these functions: the sweep no longer covers them (templates need adjusting)"}),
+        );
+    }
+}
+
 // ------------------------------------------------------------------------------------ AST
 
 #[derive(Clone, Debug, PartialEq)]
@@ -729,6 +1435,8 @@ enum E {
     GVar(u32),
     Assign(u32, Box<E>),
     Emit(u32, Option<Box<E>>),
+    /// `print "#<tag> [{e1}|{e2}|…]"`: an interpolated string whose holes are expressions
+    EmitI(u32, Vec<E>),
     MkList(Vec<E>),
     MkObj(u32),
     Index(Box<E>, Box<E>),
@@ -812,6 +1520,11 @@ impl E {
             E::Assign(x, e) => format!("(assign {} {})", x, e.sexp()),
             E::Emit(t, None) => format!("(emit {})", t),
             E::Emit(t, Some(e)) => format!("(emit {} {})", t, e.sexp()),
+            E::EmitI(t, es) => {
+                let mut v = vec![t.to_string()];
+                v.extend(es.iter().map(|e| e.sexp()));
+                sx_list("emiti", &v)
+            }
             E::MkList(es) => sx_list("mklist", &es.iter().map(|e| e.sexp()).collect::<Vec<_>>()),
             E::MkObj(c) => format!("(mkobj {})", c),
             E::Index(l, i) => format!("(index {} {})", l.sexp(), i.sexp()),
@@ -1002,6 +1715,7 @@ fn parse_e(x: &Sx) -> Option<E> {
         ("assign", 2) => E::Assign(a[0].num()?, bx(&a[1])?),
         ("emit", 1) => E::Emit(a[0].num()?, None),
         ("emit", 2) => E::Emit(a[0].num()?, Some(bx(&a[1])?)),
+        ("emiti", n) if n >= 1 => E::EmitI(a[0].num()?, parse_es(&a[1..])?),
         ("mklist", _) => E::MkList(parse_es(a)?),
         ("mkobj", 1) => E::MkObj(a[0].num()?),
         ("index", 2) => E::Index(bx(&a[0])?, bx(&a[1])?),
@@ -1339,6 +2053,10 @@ impl<'a> Renderer<'a> {
                 };
                 self.line(ind, &format!("print '#{} {{type {}}} {{{}}}'", t, name, name));
             }
+            E::EmitI(t, es) => {
+                let holes: Vec<String> = es.iter().map(|e| format!("{{{}}}", self.hoist(ind, e))).collect();
+                self.line(ind, &format!("print \"#{} [{}]\"", t, holes.join("|")));
+            }
             E::SetIdx(l, i, v) => {
                 let l = self.hoist(ind, l);
                 let i = self.hoist(ind, i);
@@ -1523,7 +2241,7 @@ fn can_fail(e: &E) -> bool {
     match e {
         E::Lit(_) | E::Var(_) | E::GVar(_) | E::MkObj(_) | E::Emit(_, None) | E::Brk | E::Cont => false,
         E::Assign(_, e) | E::Emit(_, Some(e)) | E::Ret(e) => can_fail(e),
-        E::MkList(es) | E::Seq(es) => es.iter().any(can_fail),
+        E::MkList(es) | E::Seq(es) | E::EmitI(_, es) => es.iter().any(can_fail),
         E::Push(l, v) => !matches!(**l, E::Var(_) | E::GVar(_)) || can_fail(v),
         E::If(c, t, el) => can_fail(c) || can_fail(t) || can_fail(el),
         E::ForL(_, l, b) => !matches!(**l, E::MkList(_)) || can_fail(l) || can_fail(b),
@@ -1572,7 +2290,7 @@ fn shape_walk(e: &E, s: Shape) -> Option<&'static str> {
             Some("F-C04-1:error can escape a catch block of a try with finally")
         }
         E::Assign(_, x) | E::Emit(_, Some(x)) => sub(x, s),
-        E::MkList(es) | E::Seq(es) | E::Call(_, es) => es.iter().find_map(|x| sub(x, s)),
+        E::MkList(es) | E::Seq(es) | E::Call(_, es) | E::EmitI(_, es) => es.iter().find_map(|x| sub(x, s)),
         E::Index(a, b) | E::Push(a, b) | E::Bin(_, a, b) => sub(a, s).or_else(|| sub(b, s)),
         E::SetIdx(a, b, c) => sub(a, s).or_else(|| sub(b, s)).or_else(|| sub(c, s)),
         E::Native(_, _, l) => sub(l, s),
@@ -1672,6 +2390,10 @@ fn feat_walk(e: &E, depth: u32, f: &mut Features) {
             kids.push(x)
         }
         E::MkList(es) | E::Seq(es) => kids.extend(es.iter()),
+        E::EmitI(_, es) => {
+            f.kinds.insert("interpolation-with-holes");
+            kids.extend(es.iter())
+        }
         E::Call(_, es) => {
             f.kinds.insert("call");
             kids.extend(es.iter())
@@ -1768,7 +2490,7 @@ fn calls_of(e: &E, out: &mut Vec<u32>) {
         }
         E::Lit(_) | E::Var(_) | E::GVar(_) | E::MkObj(_) | E::Emit(_, None) | E::Brk | E::Cont | E::Fault(_) => {}
         E::Assign(_, x) | E::Emit(_, Some(x)) | E::Ret(x) | E::Throw(x) => calls_of(x, out),
-        E::MkList(es) | E::Seq(es) => es.iter().for_each(|x| calls_of(x, out)),
+        E::MkList(es) | E::Seq(es) | E::EmitI(_, es) => es.iter().for_each(|x| calls_of(x, out)),
         E::Index(a, b) | E::Push(a, b) | E::Bin(_, a, b) => {
             calls_of(a, out);
             calls_of(b, out);
@@ -1804,7 +2526,7 @@ fn has_node(e: &E, pred: &dyn Fn(&E) -> bool) -> bool {
     match e {
         E::Lit(_) | E::Var(_) | E::GVar(_) | E::MkObj(_) | E::Emit(_, None) | E::Brk | E::Cont | E::Fault(_) => false,
         E::Assign(_, x) | E::Emit(_, Some(x)) | E::Ret(x) | E::Throw(x) | E::Native(_, _, x) => has_node(x, pred),
-        E::MkList(es) | E::Seq(es) | E::Call(_, es) => es.iter().any(|x| has_node(x, pred)),
+        E::MkList(es) | E::Seq(es) | E::Call(_, es) | E::EmitI(_, es) => es.iter().any(|x| has_node(x, pred)),
         E::Index(a, b) | E::Push(a, b) | E::Bin(_, a, b) | E::ForL(_, a, b) => has_node(a, pred) || has_node(b, pred),
         E::SetIdx(a, b, c) | E::If(a, b, c) => has_node(a, pred) || has_node(b, pred) || has_node(c, pred),
         E::ForG(_, _, es, b) => es.iter().any(|x| has_node(x, pred)) || has_node(b, pred),
@@ -2283,7 +3005,15 @@ impl<'a> G<'a> {
 
     fn safe_stmt(&mut self, fr: &Frame) -> E {
         match self.rng.weighted(&[3, 3, 2, 2, 2]) {
-            0 => self.emit_plain(),
+            0 => {
+                if self.rng.chance(1, 3) {
+                    let t = self.next_tag();
+                    let n = 1 + self.rng.below(2);
+                    E::EmitI(t, (0..n).map(|_| self.int_atom(fr)).collect())
+                } else {
+                    self.emit_plain()
+                }
+            }
             1 => self.observe(fr),
             2 => {
                 let v = if self.rng.chance(1, 2) { fr.ia } else { fr.ib };
@@ -2573,9 +3303,25 @@ impl<'a> G<'a> {
             7 => match self.pick_def(cx, |i| i.role == Role::General) {
                 Some(f) => {
                     let c = self.call_general(f, fr, cx, 1);
-                    if self.rng.chance(1, 2) { E::Assign(fr.ib, Box::new(c)) } else { c }
+                    match self.rng.below(3) {
+                        0 => E::Assign(fr.ib, Box::new(c)),
+                        1 => {
+                            // the call sits in a hole of an interpolated string (string builder open)
+                            let t = self.next_tag();
+                            let mut holes = vec![self.int_atom(fr), c];
+                            if self.rng.chance(1, 2) {
+                                holes.push(self.int_expr(fr, cx, 1));
+                            }
+                            E::EmitI(t, holes)
+                        }
+                        _ => c,
+                    }
                 }
-                None => self.safe_stmt(fr),
+                None => {
+                    let t = self.next_tag();
+                    let n = 1 + self.rng.below(3);
+                    E::EmitI(t, (0..n).map(|_| self.int_expr(fr, cx, 2)).collect())
+                }
             },
             8 => self.native_stmt(fr, cx).unwrap_or_else(|| self.safe_stmt(fr)),
             9 => self.gen_loop(fr, cx).unwrap_or_else(|| self.safe_stmt(fr)),
